@@ -495,6 +495,8 @@ fn run_history(rep: &mut Report, prop: &str, seed: u64, len: usize) -> HistoryOu
     };
     let mut forced: Option<Forced>;
     let mut force_forged = false;
+    // C11, kept by the harness itself: peer -> (hash of the peer's last state, when it CHANGED to it)
+    let mut last_change: BTreeMap<u64, (packed::Byte32, u64)> = BTreeMap::new();
     // C05, one history in eight: afterwards the chain stands still for more than MESSAGE_TIMEOUT
     // while the peers keep answering (the quiet-chain probe)
     let quiet_probe = c05 && seed % 8 == 1;
@@ -657,6 +659,7 @@ fn run_history(rep: &mut Report, prop: &str, seed: u64, len: usize) -> HistoryOu
                 }
                 world.peer_chain.insert(p, ci);
                 connected.insert(p);
+                last_change.remove(&p);
                 let peer = PeerIndex::new(p as usize);
                 node.nc.connect(peer);
                 let r = catch(|| block_on(node.lc.connected(as_ctx(&node.nc), peer, "t")));
@@ -671,6 +674,7 @@ fn run_history(rep: &mut Report, prop: &str, seed: u64, len: usize) -> HistoryOu
             // ------------------------------------------------------------ disconnect
             2 => {
                 let p = rng.range(1, 3);
+                last_change.remove(&p);
                 if !connected.remove(&p) {
                     continue;
                 }
@@ -912,6 +916,7 @@ fn run_history(rep: &mut Report, prop: &str, seed: u64, len: usize) -> HistoryOu
                 if outcome.starts_with("ban") {
                     // the real network disconnects a banned peer
                     connected.remove(&p);
+                    last_change.remove(&p);
                     outstanding.remove(&p);
                     block_on(node.lc.disconnected(as_ctx(&node.nc), PeerIndex::new(p as usize)));
                 }
@@ -929,6 +934,24 @@ fn run_history(rep: &mut Report, prop: &str, seed: u64, len: usize) -> HistoryOu
                 }
                 rep.count_op("laststate");
                 rep.count_class(&format!("laststate:{}:{}", label, outcome));
+                {
+                    // the peer's last state as the client holds it now (its content, not its clock)
+                    let held = node
+                        .env
+                        .peers
+                        .get_state(&PeerIndex::new(p as usize))
+                        .and_then(|s| s.get_last_state().map(|l| l.as_ref().header().hash()));
+                    match held {
+                        Some(h) if connected.contains(&p) => {
+                            if last_change.get(&p).map(|(old, _)| *old != h).unwrap_or(true) {
+                                last_change.insert(p, (h, t));
+                            }
+                        }
+                        _ => {
+                            last_change.remove(&p);
+                        }
+                    }
+                }
                 // ---- oracles
                 let after_tip = node.env.storage.get_last_state();
                 let after_ps = node
@@ -1260,6 +1283,7 @@ fn run_history(rep: &mut Report, prop: &str, seed: u64, len: usize) -> HistoryOu
                 }
                 if outcome.starts_with("ban") {
                     connected.remove(&p);
+                    last_change.remove(&p);
                     outstanding.remove(&p);
                     block_on(node.lc.disconnected(as_ctx(&node.nc), PeerIndex::new(p as usize)));
                 }
@@ -1285,6 +1309,24 @@ fn run_history(rep: &mut Report, prop: &str, seed: u64, len: usize) -> HistoryOu
                     impls.push("ok".into());
                 }
                 rep.count_op("proof");
+                {
+                    // a proof message may carry another last state (the tip-state answers)
+                    let held = node
+                        .env
+                        .peers
+                        .get_state(&PeerIndex::new(p as usize))
+                        .and_then(|s| s.get_last_state().map(|l| l.as_ref().header().hash()));
+                    match held {
+                        Some(h) if connected.contains(&p) => {
+                            if last_change.get(&p).map(|(old, _)| *old != h).unwrap_or(true) {
+                                last_change.insert(p, (h, now));
+                            }
+                        }
+                        _ => {
+                            last_change.remove(&p);
+                        }
+                    }
+                }
                 rep.count_class(&format!("proof:{:?}:{}", edit, outcome));
                 if let Err(e) = &r {
                     if !e.contains("long fork detected") {
@@ -1441,6 +1483,23 @@ fn run_history(rep: &mut Report, prop: &str, seed: u64, len: usize) -> HistoryOu
                     ),
                     Err(e) => format!("panic {}", super::c14::panic_class(e)),
                 });
+                // C11, independent of the client's own clock fields: a peer whose last state has not
+                // changed for longer than MESSAGE_TIMEOUT is dropped by the tick
+                if prop == "C11" {
+                    for (p, st) in &before_states {
+                        let held = st.as_ref().and_then(|s| s.get_last_state().map(|l| l.as_ref().header().hash()));
+                        if let (Some(h), Some((th, t0))) = (held, last_change.get(p)) {
+                            if h == *th && now > *t0 + MESSAGE_TIMEOUT && !disc.contains(p) {
+                                let mut r2 = replay.clone();
+                                r2.push(format!("# peer {}: last state unchanged since {}, tick at {}", p, t0, now));
+                                rep.violate("C11|unchanged-last-state-not-disconnected", "a peer whose last state did not change for more than the message timeout was not disconnected", r2);
+                            }
+                        }
+                    }
+                }
+                for p in &disc {
+                    last_change.remove(p);
+                }
                 // C11 timeout oracle: exactly the peers with an over-age request or last state
                 if prop == "C11" {
                     for (p, st) in &before_states {
@@ -1476,6 +1535,7 @@ fn run_history(rep: &mut Report, prop: &str, seed: u64, len: usize) -> HistoryOu
                 // the network layer reports the disconnections
                 for p in disc {
                     connected.remove(&p);
+                    last_change.remove(&p);
                     outstanding.remove(&p);
                     block_on(node.lc.disconnected(as_ctx(&node.nc), PeerIndex::new(p as usize)));
                     lines.push(format!("disconnect {}", p));
